@@ -316,10 +316,50 @@ func (m *vfC04Machine) actReplace(rt *rapid.T) {
 	}
 	pi := rapid.SampledFrom(disc).Draw(rt, "pool")
 	p := m.pools[pi]
-	rep := vfC04GenReport(rt, p, pi, false)
+	rep, deriv := vfC04GenReport(rt, p, pi, p.lastReport, false)
 	p.steerReport(m.vf, &rep)
-	m.vf.Class("action=replace")
+	m.vf.Class("action=replace", "report-derivation="+deriv)
 	m.applyReport(rt, p, rep)
+}
+
+// classifyTransition counts the replacements that keep the member URLs but change what the
+// statement says about them (weights), or keep everything.
+func (m *vfC04Machine) classifyTransition(before, after [][]vfC04Srv, prefix string) {
+	if len(before) != 1 || len(after) != 1 {
+		return
+	}
+	same, wd := vfC04SameURLs(before[0], after[0])
+	switch {
+	case same && wd:
+		m.vf.Class(prefix + "transition=same-urls-weights-changed")
+		if vfC04SumWeight(after[0]) > 0 {
+			for _, s := range after[0] {
+				if o, _ := vfC04Find(before[0], s.URL); s.Weight == 0 && o.Weight > 0 {
+					m.vf.Class(prefix + "transition=same-urls-member-weight-dropped-to-zero")
+					break
+				}
+			}
+		}
+	case same:
+		m.vf.Class(prefix + "transition=same-list-again")
+	case len(before[0]) > 0 && len(after[0]) > 0:
+		common := 0
+		for _, s := range after[0] {
+			if _, ok := vfC04Find(before[0], s.URL); ok {
+				common++
+			}
+		}
+		switch {
+		case common == len(after[0]):
+			m.vf.Class(prefix + "transition=subset-of-previous-list")
+		case common == len(before[0]):
+			m.vf.Class(prefix + "transition=superset-of-previous-list")
+		case common > 0:
+			m.vf.Class(prefix + "transition=overlapping-list")
+		default:
+			m.vf.Class(prefix + "transition=disjoint-list")
+		}
+	}
 }
 
 func (m *vfC04Machine) applyReport(rt *rapid.T, p *vfC04Pool, rep vfC04Report) {
@@ -330,8 +370,10 @@ func (m *vfC04Machine) applyReport(rt *rapid.T, p *vfC04Pool, rep vfC04Report) {
 		m.violation(rt, fmt.Sprintf("panic-in-replace policy=%s site=%s panic=%s", p.policy, site, vfPanicClass(text)), "useService panicked: %s", text)
 		return
 	}
+	m.classifyTransition(p.cands, cands, "")
 	p.cands = cands
 	p.replaced = true
+	p.lastReport = &rep
 	p.resetEpoch(true)
 	switch {
 	case amb:
@@ -380,11 +422,16 @@ func (m *vfC04Machine) actBurst(rt *rapid.T) {
 	}
 	reports := make([]vfC04Report, nrep)
 	lists := [][][]vfC04Srv{p.cands} // lists[e] = candidate lists of epoch e
+	prevRep := p.lastReport
 	for j := range reports {
-		reports[j] = vfC04GenReport(rt, p, pi, m.raceSafe)
+		var deriv string
+		reports[j], deriv = vfC04GenReport(rt, p, pi, prevRep, m.raceSafe)
 		p.steerReport(m.vf, &reports[j])
 		c, _ := vfC04ListsAfter(p, reports[j])
+		m.classifyTransition(lists[len(lists)-1], c, "burst-")
+		m.vf.Class("report-derivation=" + deriv)
 		lists = append(lists, c)
+		prevRep = &reports[j]
 	}
 	m.vf.Class("action=burst-"+mode, fmt.Sprintf("burst-G=%d", g))
 	if nrep > 0 {
@@ -487,6 +534,7 @@ func (m *vfC04Machine) actBurst(rt *rapid.T) {
 	}
 	p.cands = lists[nrep]
 	p.replaced = true
+	p.lastReport = &reports[nrep-1]
 	p.resetEpoch(false) // selections that landed on the last list during the burst are not attributable
 	m.vf.Class("rr-baseline-unknown-after-concurrent-replacement")
 }
@@ -582,7 +630,7 @@ func TestVerifC04WeightedZero(t *testing.T) {
 		viaDiscovery := false
 		if p.discovery && (len(p.static) == 0 || rapid.Bool().Draw(rt, "via-discovery")) {
 			// an all-zero report with at least one qualifying instance
-			rep := vfC04GenReport(rt, p, 0, true)
+			rep, _ := vfC04GenReport(rt, p, 0, nil, true)
 			for i := range rep.insts {
 				rep.insts[i].Weight = 0
 			}
